@@ -356,6 +356,42 @@ def k_formatreqs(c):
     return line, enc(out), out
 
 
+def k_depid(c):
+    """real get_dep_identifier: the cache-key component of a list-valued keyword"""
+    from mesonbuild.dependencies.detect import get_dep_identifier
+    ident = dict(get_dep_identifier('zlib', {'modules': list(c['items']), 'static': True}))
+    out = list(ident['modules'])
+    return f'depid {enc_list(c["items"])}', enc_list(out), out
+
+
+def k_genlistdeps(c):
+    """real GeneratedList: `depends` after adding targets in the given order, then Backend.get_target_deps"""
+    from mesonbuild import build
+    from mesonbuild.backend.backends import Backend
+    K = _testser_classes()
+    tg = {i: K['BT'](i, []) for i in dict.fromkeys(c['items'])}
+    gen = types.SimpleNamespace(exe=types.SimpleNamespace(get_path=lambda: 'tool', found=lambda: True), depends=[])
+    gl = build.GeneratedList(gen, '', None, [], None, [])
+    gl.get_generator = lambda: gen
+    for i in c['items']:
+        gl.depends.add(tg[i])
+    deps = Backend.get_target_deps(object.__new__(Backend), {'x': _GenlistUser(gl)})
+    out = list(deps)
+    return f'genlistdeps {enc_list(c["items"])}', enc_list(out), out
+
+
+def _GenlistUser(gl):
+    """a BuildTarget stand-in whose only generated source is the GeneratedList"""
+    K = _testser_classes()
+    t = K['BT']('user@exe', [])
+    t.link_targets = []
+    t.link_whole_targets = []
+    t.link_depends = []
+    t.objects = []
+    t.get_generated_sources = lambda: [gl]
+    return t
+
+
 def k_gnuarg(c):
     """a real CompileResult goes through pickle (what coredata.dat does to compiler_check_cache) and the real
     GnuLikeCompiler.has_arguments judges the fresh and the unpickled result"""
